@@ -35,22 +35,23 @@ func (fi *FuncInfo) Body() *ast.BlockStmt {
 }
 
 type Prog struct {
-	Fset      *token.FileSet
-	Pkgs      []*packages.Package // repository packages
-	AllPkgs   map[string]*packages.Package
-	Funcs     map[string]*FuncInfo
-	ByObj     map[*types.Func]*FuncInfo
-	Contracts map[string]*Contract
-	Order     []string // function names, sorted
-	Effects   map[string]*Effects
-	Direct    map[string]*Effects
-	Reach     map[string]map[string]bool
-	RepoDir   string
+	Fset           *token.FileSet
+	Pkgs           []*packages.Package // repository packages
+	AllPkgs        map[string]*packages.Package
+	Funcs          map[string]*FuncInfo
+	ByObj          map[*types.Func]*FuncInfo
+	Contracts      map[string]*Contract
+	Order          []string // function names, sorted
+	Effects        map[string]*Effects
+	Direct         map[string]*Effects
+	Reach          map[string]map[string]bool
+	RepoDir        string
 	IfaceContracts map[string]*Contract // pkg.Iface.Method
-	BindErrors []string
-	BindByFunc map[string][]string // binding problems of one function's contract (loop / identifier mismatch)
-	namedTypes map[string]types.Type // pkgname.Type -> type
-	preludeCache map[string]string
+	BindErrors     []string
+	ApproxBind     map[string][]string   // functions whose contract was bound with a guessed renaming: a failed proof there is undecided
+	BindByFunc     map[string][]string   // binding problems of one function's contract (loop / identifier mismatch)
+	namedTypes     map[string]types.Type // pkgname.Type -> type
+	preludeCache   map[string]string
 }
 
 func qualName(fn *types.Func) string {
